@@ -3,6 +3,7 @@
 package jobs
 
 import (
+	"strings"
 	"context"
 	"errors"
 	"sync/atomic"
@@ -219,4 +220,22 @@ func VerifEffectiveRetryDelays(s *Scheduler, jobID string) []int64 {
 // VerifSetToken persists a continuation token for a job id the way a finished run does.
 func VerifSetToken(r *Runner, jobID string, token string) error {
 	return r.store.StoreObject(server.JobDataIndex, jobID, &SyncJobState{ID: jobID, ContinuationToken: token})
+}
+
+// VerifVerify runs the scheduler's own validation of a job definition and reports whether it was accepted and whether
+// every per-entity error handler (log, reQueue) of every trigger got its handler object (verifyErrorHandlers sets it).
+func VerifVerify(s *Scheduler, cfg *JobConfiguration) (accepted bool, ready bool) {
+	if err := s.verify(cfg); err != nil {
+		return false, false
+	}
+	ready = true
+	for _, t := range cfg.Triggers {
+		for _, eh := range t.ErrorHandlers {
+			tp := strings.ToLower(eh.Type)
+			if (tp == ErrorHandlerLog || tp == ErrorHandlerReQueue) && eh.failingEntityHandler == nil {
+				ready = false
+			}
+		}
+	}
+	return true, ready
 }
